@@ -42,18 +42,20 @@ theorem dec_sound (b : Bytes) {p : Ptr} {c : Bool} (h : dec b = .ok (p, c)) : We
 /-- Canonical is reported exactly when the bytes the decoder looked at are the encoding of what
     it decoded. -/
 theorem canonical_iff (b : Bytes) {p : Ptr} {c : Bool} (h : dec b = .ok (p, c)) :
-    c = true ↔ enc p = b.take cut := Lfs.canonical_iff b h
+    c = true ↔ enc p = b := Lfs.canonical_iff b h
 
-/-- The decoder only ever looks at the first `cut` bytes. -/
-theorem cutoff (b : Bytes) : dec b = dec (b.take cut) := by
-  unfold dec; rw [List.take_take, Nat.min_self]
+/-- A byte string of `cut` (1024) bytes or more is never a pointer. -/
+theorem cutoff (b : Bytes) (h : cut ≤ b.length) : dec b = .error .notPtr := by
+  unfold dec; simp [h]
 
-/-- An input shorter than the window that is reported canonical IS the canonical encoding. -/
-theorem canonical_short (b : Bytes) {p : Ptr} (hlen : b.length ≤ cut) (h : dec b = .ok (p, true)) :
-    b = enc p := by
-  have := (canonical_iff b h).mp rfl
-  rw [List.take_of_length_le hlen] at this
-  exact this.symm
+/-- Every accepted input is shorter than the window, and an input reported canonical IS the
+    canonical encoding of what was decoded. -/
+theorem accepted_short (b : Bytes) {p : Ptr} {c : Bool} (h : dec b = .ok (p, c)) : b.length < cut := by
+  unfold dec at h; split at h
+  · cases h
+  · omega
+theorem canonical_is_enc (b : Bytes) {p : Ptr} (h : dec b = .ok (p, true)) : b = enc p :=
+  ((canonical_iff b h).mp rfl).symm
 
 /-- non-vacuity of `Valid`: a concrete pointer with an extension meets the hypotheses. -/
 example : ∃ p : Ptr, Valid p ∧ p.exts ≠ [] ∧ dec (enc p) = .ok (p, true) :=
